@@ -508,7 +508,7 @@ def job_g1(job):
     try:
         with contextlib.redirect_stdout(io.StringIO()):
             problem = call_limited(lambda: upj.build(dec(case["P"]), env), 20)
-            apply_x(problem, case["x"])
+            apply_x(problem, dec(case["x"]))
             if case["res"]["cls"] != "none":
                 cls, obj = case["res"]["cls"], call_limited(lambda: build_result(problem, case), 60)
             elif case["plan"]["kind"] != "none":
@@ -592,19 +592,23 @@ _EX = None
 
 
 def job_ex(job):
-    """a bundled example problem and its plans"""
+    """the bundled example problems (slice k of K, by sorted name) and their plans"""
     global _EX
     if _EX is None:
         from unified_planning.test.examples import get_example_problems
 
         with contextlib.redirect_stdout(io.StringIO()):
             _EX = get_example_problems()
-    e = _EX[job["name"]]
-    meta = {"cat": "example", "form": job["name"], "job": job}
-    out = [transition("ex", "problem", e.problem, e.problem, False, None, meta)]
-    PJ = out[0]["a"] if out[0]["mode"] == "proj" else None
-    for i, pl in enumerate(list(e.valid_plans) + list(e.invalid_plans)):
-        out.append(transition("ex", "plan", pl, e.problem, False, None, dict(meta, form="%s plan %d" % (job["name"], i), PJ=PJ)))
+    out = []
+    for name in sorted(_EX)[job["k"] :: job["K"]]:
+        e = _EX[name]
+        j1 = {"kind": "ex", "k": sorted(_EX).index(name), "K": len(_EX)}
+        meta = {"cat": "example", "form": name, "job": j1}
+        first = transition("ex", "problem", e.problem, e.problem, False, None, meta)
+        out.append(first)
+        PJ = first["a"] if first["mode"] == "proj" else None
+        for i, pl in enumerate(list(e.valid_plans) + list(e.invalid_plans)):
+            out.append(transition("ex", "plan", pl, e.problem, False, None, dict(meta, form="%s plan %d" % (name, i), PJ=PJ)))
     return out
 
 
@@ -660,21 +664,6 @@ def g2_jobs(ctx, n):
                      "flavour": ("temporal" if temporal else "classical") + "".join("+" + f for f in sorted(set(flav))),
                      "compiler": None if temporal else COMPS[(i // 2) % len(COMPS)]})
     return jobs
-
-
-def example_names():
-    # the names only; the problems are rebuilt inside the worker processes
-    import subprocess, sys, json
-
-    code = ("import json,io,contextlib\n"
-            "with contextlib.redirect_stdout(io.StringIO()):\n"
-            "    from unified_planning.test.examples import get_example_problems\n"
-            "    n = sorted(get_example_problems())\n"
-            "print(json.dumps(n))\n")
-    pr = subprocess.run([sys.executable, "-c", code], stdout=subprocess.PIPE, stderr=subprocess.PIPE, text=True, timeout=600)
-    if pr.returncode != 0:
-        raise MachineryError("cannot list the bundled examples: " + pr.stderr[-800:])
-    return json.loads(pr.stdout.strip().splitlines()[-1])
 
 
 # ----------------------------------------------------------------------------------------
@@ -773,8 +762,12 @@ def account(ctx, recs, stats):
 def run_jobs(jobs):
     if not jobs:
         return []
-    with Pool(min(14, max(1, len(jobs))), maxtasksperchild=60) as pool:
-        return pool.map(worker, jobs, chunksize=4)
+    slow = [j for j in jobs if j["kind"] == "ex"]
+    fast = [j for j in jobs if j["kind"] != "ex"]
+    with Pool(14, maxtasksperchild=200) as pool:
+        r1 = pool.map_async(worker, slow, chunksize=1)
+        r2 = pool.map_async(worker, fast, chunksize=4)
+        return r2.get() + r1.get()
 
 
 def enumerate_forms(ctx):
@@ -805,7 +798,7 @@ def run(ctx):
     # ---- G2: generated problems and derived objects -----------------------------------------------
     g2 = g2_jobs(ctx, 120 if q else 1500)
     # ---- G3: bundled examples ----------------------------------------------------------------------
-    ex = [{"kind": "ex", "name": n} for n in example_names()]
+    ex = [{"kind": "ex", "k": k, "K": 6} for k in range(6)]
     # ---- secondary mode: fresh Environment ---------------------------------------------------------
     fresh = [dict(j, fresh=True) for j in g2[: 24 if q else 120]]
     fresh += [dict(j, fresh=True) for j in jobs if j["case"]["cat"] in ("ntype", "effect", "plan", "pgr") and j["case"]["form"].endswith(
